@@ -17,6 +17,19 @@ structure Geom.Cfg (g : Geom) (m : Int) : Prop where
   htof : g.tofMash = 0 ∨ (0 < g.tofMash ∧ g.tofMash % 2 = 1)
   wf : g.WFb = true
 
+/-- the same with the ring-pair part `WFp` of the well-formedness only: also satisfied by a sampling whose axial ranges
+    were shortened after construction (`set_min_axial_pos_num`, …), for which the clause "every covered ring pair gets
+    an axial position inside the range" of `WFb` is false by design -/
+structure Geom.CfgP (g : Geom) (m : Int) : Prop where
+  hN : g.N = 2 * m
+  hm : 0 < m
+  hmash : 0 < g.viewMash ∧ m % g.viewMash = 0
+  htof : g.tofMash = 0 ∨ (0 < g.tofMash ∧ g.tofMash % 2 = 1)
+  wf : g.WFp = true
+
+theorem Geom.Cfg.toP {g : Geom} {m : Int} (c : g.Cfg m) : g.CfgP m :=
+  { hN := c.hN, hm := c.hm, hmash := c.hmash, htof := c.htof, wf := g.WFp_of_WFb c.wf }
+
 def Geom.binInRange (g : Geom) (m : Int) (b : Bin) : Prop :=
   0 ≤ b.view ∧ b.view < m / g.viewMash ∧ -m < b.tang ∧ b.tang < m ∧ (g.tofMash = 0 → b.tof = 0)
 
@@ -209,7 +222,7 @@ theorem tofOf_mem (g : Geom) (htof : g.tofMash = 0 ∨ (0 < g.tofMash ∧ g.tofM
     refine ⟨(t - (roundDiv t g.tofMash * g.tofMash - g.tofMash / 2)).toNat, by omega, by omega⟩
 
 /-- **exchange**, in the stronger form "the two orientations get the same bin" -/
-theorem swapped_bin_eq (g : Geom) (m : Int) (c : g.Cfg m) (p : DetPair) (hp : p.valid g) :
+theorem swapped_bin_eq_p (g : Geom) (m : Int) (c : g.CfgP m) (p : DetPair) (hp : p.valid g) :
     g.binForDetPair p.swapped = g.binForDetPair p := by
   obtain ⟨d1, r1, d2, r2, t⟩ := p
   obtain ⟨a1, a2, a3, a4, a5, -⟩ := hp
@@ -230,7 +243,7 @@ theorem swapped_valid (g : Geom) (p : DetPair) (hp : p.valid g) : p.swapped.vali
   show -p.t = 0
   rw [a10 h]; rfl
 
-theorem complete_keep (g : Geom) (m : Int) (c : g.Cfg m) (b : Bin) (d1 r1 d2 r2 t : Int)
+theorem complete_keep_p (g : Geom) (m : Int) (c : g.CfgP m) (b : Bin) (d1 r1 d2 r2 t : Int)
     (hp : DetPair.valid g ⟨d1, r1, d2, r2, t⟩) (v tp : Int) (hx : detToViewTang g.N d1 d2 = (v, tp, true))
     (h : g.binForDetPair ⟨d1, r1, d2, r2, t⟩ = some b) :
     g.binInRange m b ∧ (⟨d1, r1, d2, r2, t⟩ : DetPair) ∈ g.allDetPairsForBin b := by
@@ -245,7 +258,7 @@ theorem complete_keep (g : Geom) (m : Int) (c : g.Cfg m) (b : Bin) (d1 r1 d2 r2 
   obtain ⟨⟨s, a⟩, hs, rfl⟩ := h
   have vb := view_bwd hk hdiv v0 v1
   have tm := tofOf_mem g c.htof t a10
-  have hrp := (g.ringpair_partition c.wf r1 r2 ⟨a6, a7⟩ ⟨a8, a9⟩ s a).1 hs
+  have hrp := (g.ringpair_partition_p c.wf r1 r2 ⟨a6, a7⟩ ⟨a8, a9⟩ s a).1 hs
   refine ⟨⟨vb.1, vb.2.1, t0, t1, tm.1⟩, ?_⟩
   rw [mem_all_iff]
   obtain ⟨i, hi, hti⟩ := tm.2
@@ -312,6 +325,14 @@ theorem wfb_exact (g : Geom) (h : g.WFb = true) (sg : Seg) (hs : sg ∈ g.segs) 
      simp only [Bool.and_eq_true, Bool.or_eq_true, bne_iff_ne, beq_iff_eq] at h3
      exact h3.1.resolve_left (fun hne => hne heq))
 
+theorem wfp_exact (g : Geom) (h : g.WFp = true) (sg : Seg) (hs : sg ∈ g.segs) (off : Int)
+    (ho : sg.axOff g.R = some off) : sg.Exact off := by
+  obtain ⟨_, _, hax, _⟩ := g.WFp_spec h
+  obtain ⟨off', ho', hex⟩ := hax sg hs
+  rw [ho] at ho'
+  cases ho'
+  exact hex
+
 /-- a single-ring-difference segment lists the ring pair computed by `detPairForBin` -/
 theorem ring_mem_single (R : Int) (sg : Seg) (off a : Int) (heq : sg.minRD = sg.maxRD) (hex : sg.Exact off)
     (hr : 0 ≤ (sg.ringSum off a - sg.maxRD).tdiv 2 ∧ (sg.ringSum off a - sg.maxRD).tdiv 2 < R ∧
@@ -348,7 +369,7 @@ theorem tofOf_abs (g : Geom) (htof : g.tofMash = 0 ∨ (0 < g.tofMash ∧ g.tofM
 /-! ## the five properties -/
 
 /-- **soundness of a bin's list**: every pair the bin reports is assigned to that bin -/
-theorem all_sound (g : Geom) (m : Int) (c : g.Cfg m) (b : Bin) (hb : g.binInRange m b) (p : DetPair)
+theorem all_sound_p (g : Geom) (m : Int) (c : g.CfgP m) (b : Bin) (hb : g.binInRange m b) (p : DetPair)
     (hp : p ∈ g.allDetPairsForBin b) : g.binForDetPair p = some b ∧ p.valid g := by
   obtain ⟨j, hj, rp, hrp, i, hi, rfl⟩ := (mem_all_iff g b p).1 hp
   obtain ⟨hk, hdiv⟩ := c.hmash
@@ -358,7 +379,7 @@ theorem all_sound (g : Geom) (m : Int) (c : g.Cfg m) (b : Bin) (hb : g.binInRang
   have rg := viewTangToDet_range m _ b.tang c.hm ⟨vw.1, vw.2.1⟩ ⟨ht0, ht1⟩
   rw [← c.hN] at rt rg
   have rv := ring_valid_of_mem g _ _ rp.1 rp.2 hrp
-  have sg := (g.ringpair_partition c.wf rp.1 rp.2 ⟨rv.1, rv.2.1⟩ ⟨rv.2.2.1, rv.2.2.2⟩ b.seg b.ax).2 hrp
+  have sg := (g.ringpair_partition_p c.wf rp.1 rp.2 ⟨rv.1, rv.2.1⟩ ⟨rv.2.2.1, rv.2.2.2⟩ b.seg b.ax).2 hrp
   have tf := tofOf_of_range g c.htof b.tof htz i hi
   constructor
   · rw [bin_of_keep g _ _ _ _ _ _ _ rt]
@@ -366,10 +387,10 @@ theorem all_sound (g : Geom) (m : Int) (c : g.Cfg m) (b : Bin) (hb : g.binInRang
   · exact ⟨rg.1, rg.2.1, rg.2.2.1, rg.2.2.2.1, rg.2.2.2.2, rv.1, rv.2.1, rv.2.2.1, rv.2.2.2, tf.2⟩
 
 /-- **completeness**: every pair assigned to the bin is reported by it, in one of its two orientations -/
-theorem all_complete (g : Geom) (m : Int) (c : g.Cfg m) (b : Bin) (p : DetPair) (hp : p.valid g)
+theorem all_complete_p (g : Geom) (m : Int) (c : g.CfgP m) (b : Bin) (p : DetPair) (hp : p.valid g)
     (h : g.binForDetPair p = some b) :
     g.binInRange m b ∧ (p ∈ g.allDetPairsForBin b ∨ p.swapped ∈ g.allDetPairsForBin b) := by
-  have hs := swapped_bin_eq g m c p hp
+  have hs := swapped_bin_eq_p g m c p hp
   have hpv := swapped_valid g p hp
   obtain ⟨d1, r1, d2, r2, t⟩ := p
   rcases hx : detToViewTang g.N d1 d2 with ⟨v, tp, keep⟩
@@ -377,13 +398,13 @@ theorem all_complete (g : Geom) (m : Int) (c : g.Cfg m) (b : Bin) (p : DetPair) 
   · have sw := swap_exchanges m d1 d2 c.hm ⟨hp.1, by rw [← c.hN]; exact hp.2.1⟩
       ⟨hp.2.2.1, by rw [← c.hN]; exact hp.2.2.2.1⟩ hp.2.2.2.2.1
     rw [← c.hN, hx] at sw
-    have := complete_keep g m c b d2 r2 d1 r1 (-t) hpv v tp sw (hs.trans h)
+    have := complete_keep_p g m c b d2 r2 d1 r1 (-t) hpv v tp sw (hs.trans h)
     exact ⟨this.1, Or.inr this.2⟩
-  · have := complete_keep g m c b d1 r1 d2 r2 t hp v tp hx h
+  · have := complete_keep_p g m c b d1 r1 d2 r2 t hp v tp hx h
     exact ⟨this.1, Or.inl this.2⟩
 
 /-- **count**: the list has no duplicates and the reported number is its length -/
-theorem all_nodup_count (g : Geom) (m : Int) (c : g.Cfg m) (b : Bin) (hb : g.binInRange m b) :
+theorem all_nodup_count_p (g : Geom) (m : Int) (c : g.CfgP m) (b : Bin) (hb : g.binInRange m b) :
     (g.allDetPairsForBin b).Nodup ∧ (g.allDetPairsForBin b).length = g.numDetPairsForBin b := by
   obtain ⟨hk, hdiv⟩ := c.hmash
   obtain ⟨hv0, hv1, ht0, ht1, htz⟩ := hb
@@ -433,12 +454,12 @@ theorem all_nodup_count (g : Geom) (m : Int) (c : g.Cfg m) (b : Bin) (hb : g.bin
         omega
 
 /-- **exchange**: swapping the detectors gives the same spatial bin with the TOF index negated -/
-theorem swapped_same_bin (g : Geom) (m : Int) (c : g.Cfg m) (p : DetPair) (hp : p.valid g) (b : Bin)
+theorem swapped_same_bin_p (g : Geom) (m : Int) (c : g.CfgP m) (p : DetPair) (hp : p.valid g) (b : Bin)
     (h : g.binForDetPair p = some b) : g.binForDetPair p.swapped = some b :=
-  (swapped_bin_eq g m c p hp).trans h
+  (swapped_bin_eq_p g m c p hp).trans h
 
 /-- **uncompressed data**: bin → pair → bin is the identity (no view mashing, TOF mashing ≤ 1) -/
-theorem uncompressed_inverse (g : Geom) (m : Int) (c : g.Cfg m) (h1 : g.viewMash = 1) (ht : g.tofMash ≤ 1)
+theorem uncompressed_inverse_p (g : Geom) (m : Int) (c : g.CfgP m) (h1 : g.viewMash = 1) (ht : g.tofMash ≤ 1)
     (b : Bin) (hb : g.binInRange m b) (p : DetPair) (h : g.detPairForBin b = some p)
     (hr : 0 ≤ p.r1 ∧ p.r1 < g.R ∧ 0 ≤ p.r2 ∧ p.r2 < g.R) : g.binForDetPair p = some b := by
   obtain ⟨hv0, hv1, ht0, ht1, htz⟩ := hb
@@ -463,7 +484,7 @@ theorem uncompressed_inverse (g : Geom) (m : Int) (c : g.Cfg m) (h1 : g.viewMash
       | some off =>
         rw [ho] at h
         simp only [Option.bind_some] at h
-        have hex := wfb_exact g c.wf sg (seg?_mem g _ _ hs) off ho
+        have hex := wfp_exact g c.wf sg (seg?_mem g _ _ hs) off ho
         have hgr : g.ringPairsOf b.seg b.ax = sg.ringPairsOf g.R off b.ax := by
           simp only [Geom.ringPairsOf, hs, ho]
         split at h
@@ -473,7 +494,7 @@ theorem uncompressed_inverse (g : Geom) (m : Int) (c : g.Cfg m) (h1 : g.viewMash
           simp only at hr
           have hmem := ring_mem_single g.R sg off b.ax heq hex hr
           rw [← hgr] at hmem
-          have hsa := (g.ringpair_partition c.wf _ _ ⟨hr.1, hr.2.1⟩ ⟨hr.2.2.1, hr.2.2.2⟩ b.seg b.ax).2 hmem
+          have hsa := (g.ringpair_partition_p c.wf _ _ ⟨hr.1, hr.2.1⟩ ⟨hr.2.2.1, hr.2.2.2⟩ b.seg b.ax).2 hmem
           rw [bin_of_keep g _ _ _ _ _ _ _ rt, hsa, h1, Int.tdiv_one]
           rw [tofOf_abs g c.htof ht b.tof htz, show (b.tof.natAbs : Int) = b.tof by omega]
           rfl
@@ -483,11 +504,35 @@ theorem uncompressed_inverse (g : Geom) (m : Int) (c : g.Cfg m) (h1 : g.viewMash
           simp only at hr
           have hmem := ring_mem_single g.R sg off b.ax heq hex ⟨hr.2.2.1, hr.2.2.2, hr.1, hr.2.1⟩
           rw [← hgr] at hmem
-          have hsa := (g.ringpair_partition c.wf _ _ ⟨hr.2.2.1, hr.2.2.2⟩ ⟨hr.1, hr.2.1⟩ b.seg b.ax).2 hmem
+          have hsa := (g.ringpair_partition_p c.wf _ _ ⟨hr.2.2.1, hr.2.2.2⟩ ⟨hr.1, hr.2.1⟩ b.seg b.ax).2 hmem
           have sw' : detToViewTang g.N (viewTangToDet g.N b.view b.tang).snd (viewTangToDet g.N b.view b.tang).fst
               = (b.view, b.tang, false) := sw
           rw [bin_of_swap g _ _ _ _ _ _ _ sw', hsa, h1, Int.tdiv_one]
           rw [tofOf_abs g c.htof ht b.tof htz, show -(b.tof.natAbs : Int) = b.tof by omega]
           rfl
+
+/-! ### the same statements under the full hypothesis `Cfg` (as re-exported by `Props.lean` from the beginning) -/
+
+theorem all_sound (g : Geom) (m : Int) (c : g.Cfg m) (b : Bin) (hb : g.binInRange m b) (p : DetPair)
+    (hp : p ∈ g.allDetPairsForBin b) : g.binForDetPair p = some b ∧ p.valid g :=
+  all_sound_p g m c.toP b hb p hp
+
+theorem all_complete (g : Geom) (m : Int) (c : g.Cfg m) (b : Bin) (p : DetPair) (hp : p.valid g)
+    (h : g.binForDetPair p = some b) :
+    g.binInRange m b ∧ (p ∈ g.allDetPairsForBin b ∨ p.swapped ∈ g.allDetPairsForBin b) :=
+  all_complete_p g m c.toP b p hp h
+
+theorem all_nodup_count (g : Geom) (m : Int) (c : g.Cfg m) (b : Bin) (hb : g.binInRange m b) :
+    (g.allDetPairsForBin b).Nodup ∧ (g.allDetPairsForBin b).length = g.numDetPairsForBin b :=
+  all_nodup_count_p g m c.toP b hb
+
+theorem swapped_same_bin (g : Geom) (m : Int) (c : g.Cfg m) (p : DetPair) (hp : p.valid g) (b : Bin)
+    (h : g.binForDetPair p = some b) : g.binForDetPair p.swapped = some b :=
+  swapped_same_bin_p g m c.toP p hp b h
+
+theorem uncompressed_inverse (g : Geom) (m : Int) (c : g.Cfg m) (h1 : g.viewMash = 1) (ht : g.tofMash ≤ 1)
+    (b : Bin) (hb : g.binInRange m b) (p : DetPair) (h : g.detPairForBin b = some p)
+    (hr : 0 ≤ p.r1 ∧ p.r1 < g.R ∧ 0 ≤ p.r2 ∧ p.r2 < g.R) : g.binForDetPair p = some b :=
+  uncompressed_inverse_p g m c.toP h1 ht b hb p h hr
 
 end StirVerif.C01
